@@ -133,8 +133,8 @@ CloseSync(mm, c, s, code) ==
 Justified(c, s, err, code) ==
   \/ err = "LocallyClosed" /\ Closed(c, s)
   \/ err = "AppClosed" /\ Closed(c, 1 - s) /\ code \in m.closedBy[<<c, 1 - s>>]
-  \* an application close during the handshake travels as a transport close with APPLICATION_ERROR (12)
-  \/ err = "ConnClosed" /\ code = 12 /\ Closed(c, 1 - s)
+  \* an application close during the handshake travels as a transport close (NO_ERROR 0 / APPLICATION_ERROR 12)
+  \/ err = "ConnClosed" /\ code \in {0, 12} /\ Closed(c, 1 - s)
   \* CONNECTION_REFUSED (2): the server application refused or dropped the Incoming, or its endpoint is closed
   \/ err = "ConnClosed" /\ code = 2 /\ (c \in m.refused \/ 0 \in m.epClosed)
   \/ err = "TimedOut" /\ m.cfg.idle
